@@ -23,6 +23,7 @@ Inductive verdict :=
 | Denied (member pkg : name)
 | NotFound
 | NotRecord
+| NotCallable                      (* a call with arguments through a path whose value is not a function *)
 | Malformed.
 
 Section WithUpper.
@@ -120,7 +121,7 @@ Definition spec_op (h : heap) (o : op) : verdict :=
   | OpCall p args =>
     match spec_path h [] [0%nat] p None with
     | Allowed _ (VFun _ params body clos) => spec_body h params body clos (map VInt args)
-    | Allowed _ v => match args with [] => Allowed h v | _ => NotRecord end
+    | Allowed _ v => match args with [] => Allowed h v | _ => NotCallable end
     | d => d
     end
   end.
